@@ -46,23 +46,34 @@ Proof.
   split; [apply (atomic_sound ps H1 o)|apply (atomic_sound pv H2 o)].
 Qed.
 
-(* the regenerated table: every class of the inventory is there, and every program is atomic *)
+(* the regenerated table: every class of the inventory (every registry value class defined anywhere in src/ and
+   plugins/) is there; every program is atomic except those of the classes listed in ATOMIC_EXCEPTIONS (recorded
+   findings), and these really are not *)
+Definition excepted (name : list N) : bool := existsb (seq_eqb name) ATOMIC_EXCEPTIONS.
+Definition checked_table : list (list N * stm * stm) :=
+  filter (fun e : list N * stm * stm => negb (excepted (fst (fst e)))) ATOMIC_TABLE.
+
 Lemma table_covers_inventory : map (fun e => fst (fst e)) ATOMIC_TABLE = INVENTORY.
 Proof. vm_compute. reflexivity. Qed.
 
-Lemma inventory_table_atomic : table_atomic ATOMIC_TABLE = true.
+Lemma inventory_table_atomic : table_atomic checked_table = true.
+Proof. vm_compute. reflexivity. Qed.
+
+Lemma exceptions_are_not_atomic :
+  forallb (fun e : list N * stm * stm => negb (excepted (fst (fst e))) || negb (atomic (snd (fst e)) && atomic (snd e))) ATOMIC_TABLE = true.
 Proof. vm_compute. reflexivity. Qed.
 
 Lemma reject_atomic_all_classes :
-  forall name, In name INVENTORY ->
+  forall name, In name INVENTORY -> excepted name = false ->
   exists pset psetvalue, In (name, pset, psetvalue) ATOMIC_TABLE /\
   forall o,
     (snd (fst (exec pset o false)) = true -> fst (fst (exec pset o false)) = false) /\
     (snd (fst (exec psetvalue o false)) = true -> fst (fst (exec psetvalue o false)) = false).
 Proof.
-  intros name Hin. rewrite <- table_covers_inventory in Hin. apply in_map_iff in Hin as [[[n ps] pv] [E Hin]].
+  intros name Hin Hex. rewrite <- table_covers_inventory in Hin. apply in_map_iff in Hin as [[[n ps] pv] [E Hin]].
   cbn [fst] in E. subst n. exists ps, pv. split; [exact Hin|].
-  apply (table_atomic_sound ATOMIC_TABLE inventory_table_atomic name ps pv Hin).
+  apply (table_atomic_sound checked_table inventory_table_atomic name ps pv).
+  unfold checked_table. apply filter_In. split; [exact Hin|]. cbn [fst]. rewrite Hex. reflexivity.
 Qed.
 
 (* the ordering the table must exclude (C15.F25 before its repair): check; store; side effect that may raise *)
